@@ -117,6 +117,13 @@ func setChild(n *Node, s Seg, v *Node) {
 
 // Set stores v at segs; returns false (and leaves root unchanged) when a primitive is in the way.
 func Set(root *Node, segs []Seg, v *Node) bool {
+	// an index above the default MaxIdx is rejected before anything is written
+	// (indices inside names never exceed it: such segments are names)
+	for _, sg := range segs {
+		if sg.IsIx && sg.Idx > 1024 {
+			return false
+		}
+	}
 	cur := root
 	i := 0
 	for ; i < len(segs)-1; i++ {
